@@ -161,7 +161,11 @@ func c10Peer(w *lifeW, behaviour string, at time.Duration, stop <-chan struct{},
 	case <-stop:
 		return
 	}
-	for round := 0; round < 50; round++ {
+	// The peer keeps going until stop. (It used to give up after 50 connections; a passive endpoint that
+	// is tearing a generation down still has its old listener bound for a few ms, every dial to it
+	// succeeds and is reset at once, and 50 such connections were used up in 3 ms - before the
+	// library listened again. Connections are paced instead: at most one per millisecond.)
+	for round := 0; ; {
 		select {
 		case <-stop:
 			return
@@ -220,7 +224,16 @@ func c10Peer(w *lifeW, behaviour string, at time.Duration, stop <-chan struct{},
 			}
 			conn = c
 		}
+		began := time.Now()
 		c10Serve(w, conn, behaviour, round, stop)
+		round++
+		if time.Since(began) < time.Millisecond {
+			select {
+			case <-time.After(time.Millisecond):
+			case <-stop:
+				return
+			}
+		}
 	}
 }
 
@@ -504,6 +517,7 @@ func runC10(rt *rapid.T) {
 				fail("State()=%v after the peer went away", w.conn.State())
 			}
 			time.Sleep(3 * time.Millisecond)
+			neDrop := len(w.nw.Events())
 			if e := w.conn.Open(context.Background(), hsms.OpenBackground); !errors.Is(e, hsms.ErrAlreadyOpen) {
 				fail("Open while reconnecting returned %v, want ErrAlreadyOpen", e)
 			}
@@ -511,7 +525,7 @@ func runC10(rt *rapid.T) {
 			pwg.Add(1)
 			go c10Peer(w, "select", 0, stop, &pwg)
 			if !waitState(w.conn, hsms.SelectedState, 5*time.Second) {
-				fail("after a refused Open during reconnect the connection never came back (State()=%v)", w.conn.State())
+				fail("after a refused Open during reconnect the connection never came back within 5 s although the peer kept trying (State()=%v; dial/listen events since the refused Open: %v)", w.conn.State(), w.nw.Events()[neDrop:])
 			}
 			logf("recovered after drop + refused Open")
 			if e := w.conn.Close(); e != nil {
